@@ -13,7 +13,10 @@ import traceback
 from ..statemon import Reach
 
 RULE = ('one case per (sample composition, mass, environment, exposure, rest-time list, target); the sample is '
-        'activated twice (rest_times=[0] for the oracle, the case\'s list for the call under test); distinct = '
+        'activated twice (rest_times=[0] for the oracle, the case\'s list for the call under test); in a fifth of '
+        'the cases the judged Sample object carried an earlier, different calculation (other fluence / exposure / '
+        'rest times / mass, other or edited-in-place environment) and answered decay_time for the judged level '
+        'before; distinct = '
         'distinct (sorted atoms, rest-time list, decade of target/A(0), outcome class) with at least one activated '
         'product; non-trivial = the sample has activity and the target is a positive finite number')
 EXHAUSTIVE = False
@@ -217,6 +220,17 @@ def generate(ctx):
                 if rng.random() < 0.2:
                     c['reuse'] = [10 ** rng.uniform(2, 16), 10 ** rng.uniform(-3, 4),
                                   rng.choice([[0], [0, 1, 24], [2, 0.5]]), 10 ** rng.uniform(-3, -0.1)]
+                    # how the earlier calculation on the same object differs: another environment object or the
+                    # same one edited in place, optionally another mass (assigned to the public attribute)
+                    c['reuse_opts'] = {'same_env': rng.random() < 0.3,
+                                       'mass0': c['mass'] * 10 ** rng.uniform(-2, 2) if rng.random() < 0.3 else None}
+                u = rng.random()
+                if u < 0.12:
+                    c['rest_container'] = 'tuple'
+                if rng.random() < 0.08:
+                    # the judged sample is asked for other levels first (a table of levels, any order)
+                    c['pre_targets'] = [10 ** rng.uniform(-3, 1) for _ in range(rng.randint(1, 2))]
+                    c['repeat'] = True     # ... and for the judged level a second time afterwards
                 yield 'decay', c
         # acceptance probes: the root finder's answer is degraded by 0.5 % (must be refused with RuntimeError,
         # never returned) and by 0.02 % (inside the band); targets well below A(0), rest_times=[0]
@@ -248,22 +262,49 @@ def _formula_text(case):
                    for z, a, n in case['atoms'])
 
 
-def _activate(case, rest, reference=False):
+def _activate(case, rest, reference=False, target=None):
+    """The activated Sample of the case.  *target* is the level that will be judged afterwards: in
+    're-use' cases the earlier calculation on the same object is asked for exactly that level too
+    (and for another one), so an answer remembered from the earlier calculation would show."""
     A = _state['A']
-    s = A.Sample(_formula_text(case), case['mass'])
+    opts = case.get('reuse_opts') or {}
+    env = None
     if case.get('reuse') and not reference:
-        # the same Sample object was used for an earlier, different calculation (and asked for a
-        # decay time) before the calculation under test: an irradiation plan that is revised
-        f0, x0, r0, tfrac = case['reuse']
+        # the same Sample object was used for an earlier, different calculation (and asked for decay
+        # times) before the calculation under test: an irradiation plan that is revised
+        f0, x0, r0, tfrac = case['reuse'][:4]
+        mass0 = opts.get('mass0')
+        s = A.Sample(_formula_text(case), mass0 if mass0 else case['mass'])
         env0 = A.ActivationEnvironment(fluence=f0, Cd_ratio=case['Cd_ratio'], fast_ratio=case['fast_ratio'])
         try:
             s.calculate_activation(env0, exposure=x0, rest_times=r0)
             a0 = sum(v[0] for v in s.activity.values())
+            asked = []
+            if target is not None:
+                asked.append(target)
             if a0 > 0:
-                s.decay_time(a0 * tfrac)
+                asked.append(a0 * tfrac)
+            if target is not None and len(asked) > 1 and int(tfrac * 1e6) % 2:
+                asked.append(target)      # the judged level before and after another one
+            for x in asked:
+                try:
+                    s.decay_time(x)
+                    _state['reuse_first_step_answers'] = _state.get('reuse_first_step_answers', 0) + 1
+                except Exception:
+                    _state['reuse_first_step_raised'] = _state.get('reuse_first_step_raised', 0) + 1
         except Exception:
             _state['reuse_first_step_raised'] = _state.get('reuse_first_step_raised', 0) + 1
-    env = A.ActivationEnvironment(fluence=case['fluence'], Cd_ratio=case['Cd_ratio'], fast_ratio=case['fast_ratio'])
+        if mass0:
+            s.mass = case['mass']
+        if opts.get('same_env'):
+            env = env0
+            env.fluence = case['fluence']
+    else:
+        s = A.Sample(_formula_text(case), case['mass'])
+    if env is None:
+        env = A.ActivationEnvironment(fluence=case['fluence'], Cd_ratio=case['Cd_ratio'], fast_ratio=case['fast_ratio'])
+    if case.get('rest_container') == 'tuple' and not reference:
+        rest = tuple(rest)
     s.calculate_activation(env, exposure=case['exposure'], rest_times=rest)
     return s
 
@@ -369,10 +410,15 @@ def check_decay(ctx, case):
 
     rest = case['rest']
     try:
-        s = _activate(case, rest)
+        s = _activate(case, rest, target=target)
     except Exception as exc:
         ctx.count('skipped.activation_raised_' + type(exc).__name__)
         return
+    if case.get('reuse'):
+        ctx.count('reuse.cases')
+    for x in case.get('pre_targets') or []:
+        _call(s, A0 * x)          # other levels asked first; their answers are not judged here
+        ctx.count('pre_targets.asked')
     i0 = min(range(len(rest)), key=rest.__getitem__)
     To = rest[i0]
     entries = [v[i0] for v in s.activity.values()]
@@ -430,6 +476,11 @@ def check_decay(ctx, case):
     text = 'Sample(%r, %.6g g) fluence %.4g Cd %.4g fast %.4g exposure %.4g h rest_times %r target %.6g (A(0)=%.6g)' % (
         _formula_text(case), case['mass'], case['fluence'], case['Cd_ratio'], case['fast_ratio'], case['exposure'],
         rest, target, A0)
+    if case.get('reuse'):
+        text += ' [Sample object re-used: earlier calculation at fluence %.4g, exposure %.4g h, rest_times %r%s had ' \
+                'answered decay_time for this level]' % (case['reuse'][0], case['reuse'][1], case['reuse'][2],
+                                                         ', other mass' if (case.get('reuse_opts') or {}).get('mass0')
+                                                         else '')
     if verdict == 'runtime-error':
         if sib == 'accepted':
             ctx.violation('%s: raises RuntimeError (%s) although the same request with rest_times=[0] returns an '
@@ -445,6 +496,18 @@ def check_decay(ctx, case):
             feats['list_dependent'] = True
         ctx.violation('%s: decay_time returned %r: %s %r' % (text, out[1], verdict, info), kind=kind,
                       **dict(feats, **{k: v for k, v in info.items() if k != 'value'}))
+    if case.get('repeat') and not off and verdict in ('accepted', 'runtime-error'):
+        # the same level asked again (after the other levels once more): the second answer is held to the same oracle
+        for x in reversed(case.get('pre_targets') or []):
+            _call(s, A0 * x)
+        out2 = _call(s, target)
+        _state['anomalies'] = []
+        v2, info2 = _judge(out2, target, A0, total, exact_single)
+        ctx.evaluated(what='repeated-request')
+        ctx.count('repeat.' + v2)
+        if v2 not in ('accepted', 'runtime-error') or (v2 == 'runtime-error' and verdict == 'accepted'):
+            ctx.violation('%s: asked a second time on the same object, decay_time gave %r (%s %r); the first answer '
+                          'was %r' % (text, out2[1:], v2, info2, out[1:]), kind='repeat-' + v2, **feats)
     for a in anomalies:
         if a['kind'] == verdict:
             continue   # already reported by the oracle
@@ -485,6 +548,10 @@ def finish(ctx):
     ctx.require('outcome.accepted', 1, 'at least one returned time must have been judged correct')
     ctx.require('acceptance.injected', 1, 'the acceptance probe must have degraded at least one root')
     ctx.require('reach.decay_time.raise_RuntimeError', 1, 'the RuntimeError refusal must be reached')
+    ctx.count('reuse.first_step_decay_time_answers', _state.get('reuse_first_step_answers', 0))
+    ctx.count('reuse.first_step_raised', _state.get('reuse_first_step_raised', 0))
+    ctx.require('reuse.first_step_decay_time_answers', 1, 'a re-used Sample must have answered decay_time for the '
+                'judged level before the judged calculation')
 
 
 # ----------------------------------------------------------------------------
